@@ -396,7 +396,7 @@ pub fn generate(seed: u64, index: u64, thorough: bool) -> Scenario {
         let err = *rng.pick(&[ErrTy::JsonError, ErrTy::JsonError, ErrTy::Tok]);
         if framework == Framework::ActixQuery {
             // query strings: repeated keys, percent-encoding, malformed escapes, empty
-            let parts = ["q=hello", "q=a%20b", "limit=10", "page=2", "q=%E9", "q=%zz", "limit=", "=x", "unknown=1", "q=1&q=2", "q=h%C3%A9llo", "limit=10&limit=20", "a[b]=c", "+q=+x+", "?q=doggo", "?", "q=a?b", "&", "q", "q==", "%71=y", "q=x;limit=1", "page=%32", "q=+doggo", "limit=+5", "page=+2+", "q=%2Bplus", "q=a+b=+c"];
+            let parts = ["q=hello", "q=a%20b", "limit=10", "page=2", "q=%E9", "q=%zz", "limit=", "=x", "unknown=1", "q=1&q=2", "q=h%C3%A9llo", "limit=10&limit=20", "a[b]=c", "+q=+x+", "?q=doggo", "?", "q=a?b", "&", "q", "q==", "%71=y", "q=x;limit=1", "page=%32", "attributes[]=title", "q[]=x", "[]=1", "limit%5B%5D=3", "q=+doggo", "limit=+5", "page=+2+", "q=%2Bplus", "q=a+b=+c"];
             let k = rng.below(4);
             let mut q: Vec<&str> = vec![];
             for _ in 0..k {
@@ -462,6 +462,13 @@ pub fn generate(seed: u64, index: u64, thorough: bool) -> Scenario {
             16 => {
                 body.clear();
                 body_class = "empty";
+            }
+            19 if rng.chance(1, 2) => {
+                // nesting right at the parser's limit (128): 125..=128 arrays around a value
+                let depth = 125 + rng.below(4);
+                let inner = if rng.chance(1, 2) { "7" } else { "" };
+                body = format!("{}{}{}", "[".repeat(depth), inner, "]".repeat(depth)).into_bytes();
+                body_class = "deeply-nested";
             }
             18 => {
                 // the document once more, as JSON text inside a JSON string (a client that
